@@ -85,6 +85,60 @@ func genProgFields(r *Rng, cfg p1Cfg) []PStmt {
 			p = append(p, PStmt{T: "new", F: nd - 1, Msg: "m"})
 		}
 	}
+	if r.Chance(1, 2) {
+		// a cause TREE whose branches hold their first errdef layer at different depths and
+		// (mostly) carry the same keys with different values: extractors must answer from the
+		// layer errors.As finds first (depth-first, left to right), not from the shallowest one
+		ne := 0
+		for _, st := range p {
+			if st.T == "new" {
+				ne++
+			}
+		}
+		var branches []*int
+		var first []POpt
+		for b := 0; b < 2+r.Intn(2); b++ {
+			opts := forceOpts(r, cfg, pool, 1+r.Intn(2))
+			if b == 0 {
+				first = opts
+			} else {
+				for _, o := range first {
+					if r.Chance(2, 3) {
+						opts = append(opts, POpt{T: "field", Key: o.Key, Val: Pick(r, safeValuesFor(cfg, keyPool[o.Key], pool))})
+					}
+				}
+			}
+			p = append(p, PStmt{T: "define", Kind: Pick(r, p1Kinds), Opts: append(opts, POpt{T: "notrace"})})
+			nd++
+			p = append(p, PStmt{T: "new", F: nd - 1, Msg: Pick(r, p1Msgs)})
+			ne++
+			depth := r.Intn(3)
+			if b == 0 {
+				depth = 1 + r.Intn(2) // the leftmost branch is never the shallowest
+			}
+			for w := 0; w < depth; w++ {
+				if r.Chance(1, 2) {
+					p = append(p, PStmt{T: "fmterrorf", Msg: Pick(r, p1Msgs), C: ip(ne - 1)})
+				} else {
+					p = append(p, PStmt{T: "single", Msg: Pick(r, p1Msgs), C: ip(ne - 1)})
+				}
+				ne++
+			}
+			branches = append(branches, ip(ne-1))
+		}
+		switch r.Intn(3) {
+		case 0:
+			p = append(p, PStmt{T: "errorsjoin", Cs: branches})
+		case 1:
+			p = append(p, PStmt{T: "multi", Msg: Pick(r, p1Msgs), Cs: branches})
+		default:
+			p = append(p, PStmt{T: "join", F: 0, Cs: branches})
+		}
+		ne++
+		if r.Chance(1, 2) {
+			p = append(p, PStmt{T: "fmterrorf", Msg: Pick(r, p1Msgs), C: ip(ne - 1)})
+		}
+	}
 	rest := genProg(r, cfg)
 	// shift nothing: the random tail refers to pools from index 0, which exist
 	return append(p, rest...)
@@ -190,20 +244,26 @@ func runC03(p []PStmt) Case {
 }
 
 // forceOpts returns exactly n field options.
+// safeValuesFor: the pool values of the key's type (only those json.Marshal accepts when cfg.JSONSafe)
+func safeValuesFor(cfg p1Cfg, k keyEntry, pool []gval) []int {
+	vs := valuesFor(k, pool)
+	if cfg.JSONSafe {
+		var safe []int
+		for _, v := range vs {
+			if _, err := json.Marshal(pool[v].V); err == nil {
+				safe = append(safe, v)
+			}
+		}
+		vs = safe
+	}
+	return vs
+}
+
 func forceOpts(r *Rng, cfg p1Cfg, pool []gval, n int) []POpt {
 	var out []POpt
 	for len(out) < n {
 		k := Pick(r, cfg.Keys)
-		vs := valuesFor(keyPool[k], pool)
-		if cfg.JSONSafe {
-			var safe []int
-			for _, v := range vs {
-				if _, err := json.Marshal(pool[v].V); err == nil {
-					safe = append(safe, v)
-				}
-			}
-			vs = safe
-		}
+		vs := safeValuesFor(cfg, keyPool[k], pool)
 		out = append(out, POpt{T: "field", Key: k, Val: Pick(r, vs)})
 	}
 	return out
